@@ -7,7 +7,7 @@ def cchar(b):
     return "char(%d)" % (b if b < 128 else b - 256)
 
 
-def tu_source(g, gid=None, dflt=()):
+def tu_source(g, gid=None, dflt=(), limits=None):
     """g: gram.Grammar.  Terms are typed char terms with the observing functor, every rule gets RuleF{index}."""
     gid = gid or g.name
     o = ['#include "rt.hpp"', 'using namespace ctpg;', 'using vh::Node;', 'namespace G {',
@@ -26,10 +26,12 @@ def tu_source(g, gid=None, dflt=()):
         if prec != 0:
             r = '(%s[%d])' % (r, prec)
         rl.append('        %s' % r if ri in dflt else '        %s >= vh::RuleF{%d}' % (r, ri))
+    if limits:
+        o.append('struct Lim { static const size_t state_count_cap = %d; static const size_t max_sit_count_per_state_cap = %d; };' % tuple(limits))
     o.append('auto make() { return new parser(n%d,' % ntid[g.root])
     o.append('    terms(%s),' % ', '.join('t%d' % i for i in range(len(g.ts))))
     o.append('    nterms(%s),' % ', '.join('n%d' % i for i in range(len(g.nts))))
-    o.append('    rules(\n%s\n    )); }' % ',\n'.join(rl))
+    o.append('    rules(\n%s\n    )%s); }' % (',\n'.join(rl), ', use_generated_lexer{}, Lim{}' if limits else ''))
     o.append('}')
     o.append('int main(int argc, char** argv) { return vh::gen_main([] { return G::make(); }, "%s", argc, argv); }' % gid)
     return '\n'.join(o) + '\n'
